@@ -13,12 +13,26 @@ ENGINES = [
     {"name": "tlc", "path": "/verif/pcv/tlc.py", "kind_free_text": "TLC 1.8 driver: cfg/MC generation, JSON oracle dumps, coverage"},
     {"name": "enumrng", "path": "/verif/pcv/enumrng.py", "kind_free_text": "enumerating/scripted numpy-Generator stand-in: exact laws of real sampler calls"},
     {"name": "Perm.tla", "path": "/verif/spec/Perm.tla", "serves_properties": ["C09", "C01"], "kind_free_text": "compatible orders, count formula, bridge-shuffle sampler"},
+    {"name": "Proposal.tla", "path": "/verif/spec/Proposal.tla", "serves_properties": ["C08", "C01"], "kind_free_text": "three proposals as draw procedures + reported densities, incremental weights, telescoping state machine"},
     {"name": "Forests.tla", "path": "/verif/spec/Forests.tla", "serves_properties": ["C01", "C03", "C04", "C06", "C07", "C08", "C09", "C11", "C12", "C16"], "kind_free_text": "canonical forest universe"},
 ]
 
 NOT_APPLICABLE = {}
 
 CHECKS = {
+    "C08": {
+        "engine": "Proposal.tla",
+        "category": "model_checking",
+        "technique": "TLC exhaustive (exact rationals + F_p telescoping) over parents x points x kernels; exact-law replay into real kernels on TLC's tables",
+        "design_ref": "DESIGN.md 5 C08",
+        "text": "TLC proves for every parent forest with <3 (quick) / <4 (thorough) placed points (incl. empty and outlier-only), every next "
+                "point, three kernels, outlier proposal probability 0 and 1/10, with/without permutation density: support = all placements, "
+                "probabilities sum to one (exact rationals), draw procedure law = reported density, weights telescope on every path (F_p, two "
+                "primes), every tree is reachable along every compatible order. Each (parent, point) is then run through the real kernel on "
+                "the same integer tables: exact law of sample() by RNG enumeration, log_p, create_particle().log_w and the last-step weight "
+                "are compared with TLC's rationals.",
+        "note": "Trusted: TLC, EnumRNG, TableDist (real density bound separately by C02/C03). Parents bounded to <=3 placed points (<=3 top-level clones).",
+    },
     "C09": {
         "engine": "Perm.tla",
         "category": "model_checking",
